@@ -197,6 +197,123 @@ def build():
         defs.append((tname, "list (list N * N)", val))
         m = one(r"int_enum_str_with_prefix!\(\s*%s\s*,\s*\"([A-Z]+)\"" % cname, src, "%s prefix" % cname)
         defs.append((tname.replace("_table", "_prefix"), "list N", bstr(m.group(1))))
+
+    # ---- per-type scan sequences (ZoneRecordData variants): the Scanner
+    # methods each record type's `scan` calls, in order, as method codes
+    #   1 scan_name  2 scan_octets  3 scan_charstr  4 scan_ascii_str
+    #   5 u8  6 u16  7 u32 / Serial  8 Ttl  9 scan_charstr_entry
+    #   10 convert_entry(base16)  11 convert_entry(base64)
+    # Types whose scan is not a straight line of these (loops, convert_token,
+    # custom converters, SVCB) are listed in type_scans_unresolved.
+    import glob
+    files = {}
+    for f in glob.glob(os.path.join(REPO, "src/rdata/**/*.rs"), recursive=True) + \
+             glob.glob(os.path.join(REPO, "src/base/*.rs")) + glob.glob(os.path.join(REPO, "src/base/iana/*.rs")):
+        files[f] = strip_comments(open(f).read())
+    iana_macros = strip_comments(read("src/base/iana/macros.rs"))
+    scan_impl_macros = []
+    for mm in re.finditer(r"macro_rules!\s+(\w+)\s*\{", iana_macros):
+        body = block_from(iana_macros, mm.end() - 1)
+        if "scan_impl!(" in body and mm.group(1) != "scan_impl":
+            scan_impl_macros.append(mm.group(1))
+    sb = one(r"macro_rules!\s+scan_impl\s*\{", iana_macros, "scan_impl macro")
+    if "scanner.scan_ascii_str(" not in block_from(iana_macros, sb.end() - 1):
+        raise GenError("scan_impl! no longer uses scan_ascii_str")
+    ascii_types = set()
+    for txt in files.values():
+        for mac in scan_impl_macros:
+            for mm in re.finditer(mac + r"!\(\s*(\w+)\s*,", txt):
+                ascii_types.add(mm.group(1))
+    PRIM = {"u8": [5], "u16": [6], "u32": [7], "Serial": [7], "Ttl": [8]}
+    TOK = re.compile(r"scanner\s*\.\s*(scan_name|scan_octets|scan_charstr_entry|scan_charstr|scan_ascii_str|scan_svcb_octets|scan_string|convert_token|convert_entry|continues|scan_symbols|scan_entry_symbols)\s*\(\s*(\w*)|\b([A-Z]\w*|u8|u16|u32|u64)::scan\(\s*scanner\s*\)")
+
+    def find_scan_body(ty):
+        for txt in files.values():
+            for mm in re.finditer(r"\bimpl\b[^{;]*?\b" + ty + r"\b[^{;]*\{", txt):
+                hdr = mm.group(0)
+                if re.search(r"\bfor\s+(?!" + ty + r"\b)", hdr) and not re.search(r"Scan<\w+>\s+for\s+" + ty + r"\b", hdr):
+                    continue
+                blk = block_from(txt, mm.end() - 1)
+                fm = re.search(r"\bfn\s+scan\s*(?:<[^{]*?>)?\s*\(\s*scanner\s*:", blk)
+                if fm:
+                    return fn_body(blk, "scan")
+        return None
+
+    def resolve(ty, depth=0):
+        if ty in PRIM:
+            return PRIM[ty]
+        if ty in ascii_types:
+            return [4]
+        if depth > 4:
+            return None
+        body = find_scan_body(ty)
+        if body is None:
+            return None
+        return seq_of(body, depth + 1)
+
+    def seq_of(body, depth=0):
+        if re.search(r"\b(while|for|loop)\b", body) or "impl<" in body:
+            return None
+        # every `X::scan(` and every `scanner.method(` must be one we classify
+        n_calls = len(re.findall(r"::scan\s*\(", body)) + len(re.findall(r"\bscanner\s*\.\s*\w+\s*\(", body))
+        if n_calls != len(TOK.findall(body)):
+            return None
+        out = []
+        for mm in TOK.finditer(body):
+            if mm.group(1):
+                k = mm.group(1)
+                if k == "scan_name": out.append(1)
+                elif k == "scan_octets": out.append(2)
+                elif k == "scan_charstr": out.append(3)
+                elif k == "scan_charstr_entry": out.append(9)
+                elif k == "scan_ascii_str": out.append(4)
+                elif k == "convert_entry":
+                    if mm.group(2) == "base16": out.append(10)
+                    elif mm.group(2) == "base64": out.append(11)
+                    else: return None
+                else:
+                    return None
+            else:
+                r = resolve(mm.group(3), depth)
+                if r is None:
+                    return None
+                out.extend(r)
+        return out
+
+    rmod = strip_comments(read("src/rdata/mod.rs"))
+    rt = block_from(rmod, one(r"rdata_types!\s*\{", rmod, "rdata_types!").end() - 1)
+    variants = re.findall(r"\b([A-Z][A-Za-z0-9]*)\s*(?:<[^>]*>)?\s*,", re.sub(r"\b(zone|pseudo)\s*\{", "{", rt))
+    mac = strip_comments(read("src/rdata/macros.rs"))
+    nb = block_from(mac, one(r"macro_rules!\s+name_type_base\s*\{", mac, "name_type_base").end() - 1)
+    if not re.search(r"scanner\.scan_name\(\)\.map\(Self::new\)", nb):
+        raise GenError("name_type_base! scan no longer is scan_name")
+    name_types = set()
+    for txt in files.values():
+        for mm in re.finditer(r"\bname_type(?:_well_known|_canonical)?!\s*\{\s*\(\s*(\w+)\s*,", txt):
+            name_types.add(mm.group(1))
+    rnum = {}
+    rsrc = strip_comments(read("src/base/iana/rtype.rs"))
+    for (_, v, mn) in re.findall(r"\(\s*([A-Za-z0-9_]+)\s*=>\s*(0x[0-9A-Fa-f]+|\d+)\s*,\s*\"([^\"]+)\"\s*\)", rsrc):
+        rnum[mn.replace("-", "")] = num(v)
+    resolved, unresolved = [], []
+    for v in variants:
+        key = v.upper()
+        if key not in rnum:
+            continue  # pseudo types without zone-file mnemonic
+        if v in name_types:
+            seq = [1]
+        else:
+            body = find_scan_body(v)
+            seq = seq_of(body) if body is not None else None
+        if seq is None:
+            unresolved.append(rnum[key])
+        else:
+            resolved.append((rnum[key], seq))
+    if len(resolved) < 20:
+        raise GenError("only %d record types resolved to scan sequences" % len(resolved))
+    defs.append(("type_scans", "list (N * list N)",
+                 "[" + "; ".join("(%d%%N, %s)" % (n, nlist(sq)) for n, sq in sorted(resolved)) + "]"))
+    defs.append(("type_scans_unresolved", "list N", nlist(sorted(unresolved))))
     return defs
 
 if __name__ == "__main__":
